@@ -34,12 +34,17 @@ def x_gather(report):
         raise Unrecognised("_find_best", "the consume loop over all counters not recognised")
     m = _one(r"class CounterGather.*?def peek\(self, cur_query_mh, \*, threshold_bp=0\):(.*?)\n    def consume", index,
              "CounterGather.peek", "method not found")
-    peek = norm(m.group(1))
+    peek = norm(re.sub(r"#[^\n]*", "", m.group(1)))
     m = _one(r"if match_size (>=|>|<=|<) n_threshold_hashes:", peek, "CounterGather.peek",
              "threshold comparison not recognised")
     peek_cmp = OPS[m.group(1)]
-    if "most_common = counter.most_common() dataset_id, match_size = most_common[0]" not in peek:
-        raise Unrecognised("CounterGather.peek", "most_common()[0] selection not recognised")
+    # the lazy-refresh loop: largest counter, recomputed at the current resolution, accepted only if exact
+    for frag in ("while True: most_common = counter.most_common() if not most_common: return [] "
+                 "dataset_id, match_size = most_common[0]",
+                 "intersect_mh = cur_query_mh & match_mh if len(intersect_mh) == match_size: break",
+                 "if intersect_mh: counter[dataset_id] = len(intersect_mh) else: del counter[dataset_id]"):
+        if frag not in peek:
+            raise Unrecognised("CounterGather.peek", "lazy-refresh loop not recognised: " + frag[:60])
     ct = norm(py_fn_body(search, "calc_threshold_from_bp"))
     shape = []
     for pat, tag in ((r"n_threshold_hashes = float\(threshold_bp\) / scaled", "bp/scaled"),
@@ -48,13 +53,15 @@ def x_gather(report):
         mm = _one(pat, ct, "calc_threshold_from_bp", "expression shape not recognised")
         shape.append(tag if tag else "unattainable-" + OPS[mm.group(1)] + "-1.0")
     sd = norm(py_fn_body(search, "search_databases_with_flat_query"))
-    for pat in (r"md5 = match\.md5sum\(\) if md5 not in found_md5: results\.append\(\(score, match, filename\)\) found_md5\.add\(md5\)",
+    sd = norm(re.sub(r"#[^\n]*", "", py_fn_body(search, "search_databases_with_flat_query")))
+    for pat in (r"md5 = \(match\.md5sum\(\), match\.minhash\.scaled, match\.minhash\.num\) if md5 not in found_md5: "
+                r"results\.append\(\(score, match, filename\)\) found_md5\.add\(md5\)",
                 r"results\.sort\(key=lambda x: -x\[0\]\)"):
         _one(pat, sd, "search_databases_with_flat_query", "de-duplication / sort shape not recognised")
     _one(r"results = sorted\(results, key=lambda x: \(-x\.score, x\.signature\.md5sum\(\)\)\)", norm(index),
          "Index.best_containment", "tie-break sort key not recognised")
     out = {"findBestCmp": find_best, "peekBelowCmp": peek_cmp, "thresholdShape": ";".join(shape),
-           "searchDedupKey": "md5", "bestContainmentKey": "-score,md5"}
+           "searchDedupKey": "md5,scaled,num", "peekLoop": "lazy-refresh", "bestContainmentKey": "-score,md5"}
     report["outputs"]["gather"] = out
     report["inputs"]["_find_best"] = fb[:400]
     report["inputs"]["calc_threshold_from_bp"] = ct[:400]
@@ -62,7 +69,8 @@ def x_gather(report):
             f"def gatherFindBestCmp : String := \"{find_best}\"\n"
             f"def gatherPeekBelowCmp : String := \"{peek_cmp}\"\n"
             f"def gatherThresholdShape : String := \"{out['thresholdShape']}\"\n"
-            f"def searchDedupKey : String := \"md5\"\n"
+            f"def searchDedupKey : String := \"md5,scaled,num\"\n"
+            f"def gatherPeekLoop : String := \"lazy-refresh\"\n"
             f"def bestContainmentKey : String := \"-score,md5\"\n")
 
 
